@@ -481,6 +481,8 @@ class Exec:
                 if attr == 'args':
                     return [('ok', st, eargs(base))]
                 if attr == '__cause__':
+                    if '#cause' in st.ghost:
+                        return [('ok', st, z3.Select(st.ghost['#cause'], base))]
                     return [('ok', st, ecause(base))]
                 if attr == '__traceback__':
                     return [('ok', st, etb(base))]
@@ -1163,8 +1165,11 @@ class Exec:
                     if model is not None:
                         return model.setattr(self, s, base, target.attr, v, target)
                     if target.attr == '__cause__':
-                        return [('ok', s.fork(), None)]     # e.__cause__ = ... : traceback bookkeeping, modelled by ecause only on raise-from
-                    if target.attr == '__traceback__':
+                        s = s.fork()
+                        if '#cause' in s.ghost:             # units that reason about __cause__ keep it as a mutable map
+                            s.ghost['#cause'] = z3.Store(s.ghost['#cause'], base, box(self, v))
+                        return [('ok', s, None)]
+                    if target.attr in ('__traceback__', '__context__', '__suppress_context__', '__notes__'):
                         return [('ok', s.fork(), None)]
                 raise Unsupported(f'attribute store on {base!r} (`{ast.unparse(target)}`)')
             return self.bind(self.ev(target.value, st), f)
